@@ -3,9 +3,9 @@ CONSTANTS
   Attr <- Tree
   ModuleOf <- Mods
   ExtraLoads <- Extra
-  SkipForms <- DynSkips
-  Templates <- Tpl
-  PrevDocs <- NoPrev
+  SkipForms <- HistSkips
+  Templates <- TplHist
+  PrevDocs <- Prevs
   MaxStmts = 3
 INVARIANT C19_ExactObject
 INVARIANT C19_SameConfigurable
